@@ -7,7 +7,7 @@ weighted average of random invariant periodic functions  f(k) = sum_{R in point-
 (real and imaginary part) equals the full-mesh average.  The point group comes from the independent
 brute-force space group (vmon.ref.geom.full_group).
 """
-import itertools
+import itertools, signal
 import numpy as np
 from vmon import gen
 from vmon.util import Mon
@@ -18,7 +18,8 @@ RULE = ('random crystals (all 11 3-D and 5 2-D lattice systems, 1-3 orbits, 1-2 
         'skewed strained FCC/BCC/hexagonal cells) x random meshes (each division 1..7 (3-D) / 1..12 (2-D); isotropic even, isotropic '
         'odd, anisotropic mixed) x 6 random lattice-vector shells per mesh; non-trivial = mesh with more than one point; '
         'distinct = (kind, |G|, mesh)')
-ASSUMPTIONS = ['Brillouin-zone membership |k|^2 <= |k-G|^2 + 1e-9 |G|^2 over all reciprocal vectors with indices |m| <= 5 (the '
+ASSUMPTIONS = ['a fullkptmesh call that has not returned after 60 s (normal: < 1 s) is reported as non-terminating',
+               'Brillouin-zone membership |k|^2 <= |k-G|^2 + 1e-9 |G|^2 over all reciprocal vectors with indices |m| <= 5 (the '
                'repository builds its zone from |m| <= 3)',
                'averages compared to 1e-12 x (number of terms in the shell); mesh points compared in reduced coordinates to 1e-9']
 REQUIRED_OBS = {'meshes_checked': 100, 'eval:C22:in-first-BZ': 100, 'eval:C22:full-mesh-complete': 100, 'eval:C22:weights-sum': 100,
@@ -28,8 +29,30 @@ CASE_TIMEOUT = 600
 EXTRA_KINDS = ('strainF', 'strainI', 'strainH3', 'strainH2')
 
 
+MESH_DEADLINE = 60
+
+
+class MeshTimeout(BaseException):
+    pass
+
+
+class deadline:
+    """SIGALRM-based time limit for one repository call (the worker runs cases in its main thread)."""
+    def __init__(self, seconds): self.seconds = seconds
+
+    def __enter__(self):
+        def handler(signum, frame): raise MeshTimeout()
+        self.old = signal.signal(signal.SIGALRM, handler)
+        signal.alarm(self.seconds)
+
+    def __exit__(self, *exc):
+        signal.alarm(0)
+        signal.signal(signal.SIGALRM, self.old)
+        return False
+
+
 def cases(tier, seed):
-    n = 48 if tier == 'quick' else 600
+    n = 48 if tier == 'quick' else 400
     return [{'seed': seed, 'idx': i, 'hashseed': i % 5, 'ncrys': 2 if tier == 'quick' else 3, 'nmesh': 3,
              'maxpts': 400 if tier == 'quick' else 1500} for i in range(n)]
 
@@ -92,8 +115,15 @@ def run_case(case):
             if sample is None: sample = desc
             detail = lambda: str(desc)
             kpts = None
-            with mon.guard('C22:fullkptmesh'):
-                kpts = crys.fullkptmesh(N)
+            try:
+                with mon.guard('C22:fullkptmesh'), deadline(MESH_DEADLINE):
+                    kpts = crys.fullkptmesh(N)
+            except MeshTimeout:
+                # a mesh of <= 1500 points normally takes well under a second
+                mon.check(False, 'C22:fullkptmesh-terminates', lambda: 'no result within %d s %s' % (MESH_DEADLINE, desc),
+                          tags=['anisotropic-mesh'] if len(set(N)) > 1 else ['isotropic-mesh'])
+                return mon.result(sample=sample)   # one witness per case is enough; do not wait for more
+            mon.check(True, 'C22:fullkptmesh-terminates')
             if kpts is None:
                 mon.check(False, 'C22:fullkptmesh-returns-mesh', detail)
                 continue
